@@ -1,6 +1,7 @@
 package main
 
 import (
+	"crypto/sha1"
 	"encoding/json"
 	"fmt"
 	"os"
@@ -135,7 +136,7 @@ func buildReport(ps *PropSpec, out *runOutput, opts Options, wall float64, parti
 	rep.Assumed = sortedKeys(assumed)
 	// violations
 	for _, o := range rep.Failed {
-		path := filepath.Join(runDir, sanitize(o.Name)+".json")
+		path := filepath.Join(runDir, uniqueFileName(o.Name)+".json")
 		suffix := writeReplay(path, ps.ID, o)
 		rep.ViolLines = append(rep.ViolLines, fmt.Sprintf("VIOLATION property=%s replay=%s obligation=%s %s", ps.ID, path, o.Name, suffix))
 		rep.Violations++
@@ -324,4 +325,14 @@ func writeEvidence(rep *Report) error {
 		return err
 	}
 	return os.WriteFile(filepath.Join(verifRoot, "evidence", ps.ID+".json"), data, 0o644)
+}
+
+// uniqueFileName: the sanitised obligation name, with a hash of the full name when it was truncated.
+func uniqueFileName(name string) string {
+	s := sanitize(name)
+	if len(s) < len(sanRe.ReplaceAllString(name, "_")) {
+		h := sha1.Sum([]byte(name))
+		s = fmt.Sprintf("%s.%x", s, h[:4])
+	}
+	return s
 }
